@@ -460,7 +460,7 @@ def render_extra(e, rng):
                 "  end subroutine %shelper" % e["name"], "end module %s" % e["name"]]
     if k == "callfam_u":
         n = e["name"]
-        return ["module %s" % n, "  !! %s" % e["tr"], "  use %s" % e["helper_mod"], "  implicit none", "  private", "  public :: %s_run" % n,
+        return ["module %s" % n, "  !! %s" % e["tr"], "  use %s" % e["helper_mod"], "  implicit none",
                 "contains", "  subroutine %s()" % e["setup"], "    !! setup of %s" % n, "    call %s()" % e["helper"],
                 "  end subroutine %s" % e["setup"], "  subroutine %s_run()" % n, "    call %s()" % e["setup"],
                 "  end subroutine %s_run" % n, "end module %s" % n]
